@@ -21,6 +21,9 @@ type Runner struct {
 	Twice bool // recover every image twice (C04 idempotence)
 	// ReadBack after every mutating call.
 	ReadEvery bool
+	// OnlyClosed examines fault images only between the return of Close and the end of the next Open (C09).
+	OnlyClosed bool
+	closedWin  bool
 	// PowerLimit bounds the number of power-loss images examined per instant.
 	PowerLimit int
 	// ImageEvery examines fault images only at every n-th instant (1 = all).
@@ -51,6 +54,7 @@ func NewRunner(rec *Rec, p *Program, mode string, seed int64, depth int, twice b
 		cfg.FS = "crashfs"
 		r.FS = crashfs.New()
 		r.S = NewSess(rec, cfg, r.FS, r.Dir, p.ID, Ev{"prog": p, "run": Ev{"cmd": "fault", "mode": mode, "seed": seed, "depth": depth, "twice": twice, "plimit": plimit}})
+		_ = 0
 		if mode != "seq" {
 			r.FS.Hook = r.hook
 		}
@@ -104,6 +108,9 @@ func (r *Runner) chooseTarget(im *crashfs.Image, c *crashfs.Call) {
 
 // instant examines the fault images of one instant (before call c, or between calls if c is nil).
 func (r *Runner) instant(im *crashfs.Image, c *crashfs.Call, depth int) {
+	if r.OnlyClosed && !r.closedWin {
+		return
+	}
 	r.Instants++
 	switch r.Mode {
 	case "crash":
@@ -317,8 +324,10 @@ func (r *Runner) step(o Op) (died bool, err error) {
 		if err = r.S.Do(Op{Op: "close", T: o.T}); err != nil {
 			return false, err
 		}
+		r.closedWin = true
 		r.between()
 		err = r.S.Open()
+		r.closedWin = false
 	case "open":
 		err = r.S.Open()
 	case "readall":
@@ -368,6 +377,7 @@ func (r *Runner) Run(p *Program) error {
 			continue
 		}
 		if o.Op == "close" {
+			r.closedWin = true
 			r.between()
 			return nil
 		}
